@@ -347,9 +347,33 @@ func genRecipe(t *rapid.T, nEndpoints int) recipe {
 	var r recipe
 	r.KeyKind = rapid.SampledFrom([]string{"pool", "pool", "pool", "pool", "none", "garbage33", "short"}).Draw(t, "keyKind")
 	r.KeyIdx = rapid.IntRange(0, len(nodeKeys)-1).Draw(t, "keyIdx")
+	// validator configuration first: live endpoints are dialled (slow) only
+	// when the availability validator is configured
+	all := []string{"state", "structure", "availability", "privatedomains", "locode", "external"}
+	switch rapid.IntRange(0, 3).Draw(t, "cfgKind") {
+	case 0: // production order without external
+		r.Config = all[:5]
+	case 1: // production order with external
+		r.Config = all
+	default:
+		perm := rapid.Permutation(all).Draw(t, "cfgPerm")
+		n := rapid.IntRange(0, len(all)).Draw(t, "cfgLen")
+		r.Config = perm[:n]
+		if rapid.IntRange(0, 7).Draw(t, "cfgRepeat") == 0 && n > 0 {
+			r.Config = append(append([]string{}, r.Config...), r.Config[0])
+		}
+	}
+	withAvail := false
+	for _, c := range r.Config {
+		withAvail = withAvail || c == "availability"
+	}
 	// endpoints: mostly few and valid, so that whole-descriptor acceptance is common
-	nEp := rapid.SampledFrom([]int{0, 1, 1, 1, 2, 2, 3}).Draw(t, "nEndpoints")
-	epClass := rapid.SampledFrom([]string{"live", "live", "live", "any", "valid", "any"}).Draw(t, "epClass")
+	nEp := rapid.SampledFrom([]int{0, 0, 1, 1, 1, 2, 2, 3}).Draw(t, "nEndpoints")
+	classes := []string{"live", "live", "any", "valid", "any", "valid"}
+	if withAvail {
+		classes = []string{"live", "dead", "dead", "any", "any", "any", "dead", "any", "dead", "any"}
+	}
+	epClass := rapid.SampledFrom(classes).Draw(t, "epClass")
 	pool := endpointPool(0)
 	for i := 0; i < nEp; i++ {
 		var idx int
@@ -358,8 +382,10 @@ func genRecipe(t *rapid.T, nEndpoints int) recipe {
 			idx = rapid.IntRange(0, 2).Draw(t, "ep")
 		case "valid":
 			idx = rapid.IntRange(0, 7).Draw(t, "ep")
+		case "dead":
+			idx = rapid.IntRange(3, 7).Draw(t, "ep")
 		default:
-			idx = rapid.IntRange(0, len(pool)-1).Draw(t, "ep")
+			idx = rapid.IntRange(3, len(pool)-1).Draw(t, "ep")
 		}
 		r.Endpoints = append(r.Endpoints, idx)
 	}
@@ -395,20 +421,6 @@ func genRecipe(t *rapid.T, nEndpoints int) recipe {
 	}
 	r.NodeMut = rapid.SampledFrom([]string{"same", "same", "same", "state", "attr-value", "attr-extra", "attr-missing", "key", "endpoint-extra", "endpoint-other", "error"}).Draw(t, "nodeMut")
 
-	all := []string{"state", "structure", "availability", "privatedomains", "locode", "external"}
-	switch rapid.IntRange(0, 3).Draw(t, "cfgKind") {
-	case 0: // production order without external
-		r.Config = all[:5]
-	case 1: // production order with external
-		r.Config = all
-	default:
-		perm := rapid.Permutation(all).Draw(t, "cfgPerm")
-		n := rapid.IntRange(0, len(all)).Draw(t, "cfgLen")
-		r.Config = perm[:n]
-		if rapid.IntRange(0, 7).Draw(t, "cfgRepeat") == 0 && n > 0 {
-			r.Config = append(append([]string{}, r.Config...), r.Config[0])
-		}
-	}
 	_ = nEndpoints
 	return r
 }
@@ -762,6 +774,19 @@ func (w *world) nnsFor(r recipe) *fakeNNS {
 	}
 }
 
+// safeVerify runs a validator; a panic is reported as a rejection carrying
+// errPanicked (a validator that panics certainly did not accept).
+func safeVerify(v nmproc.NodeValidator, ni netmap.NodeInfo) (err error) {
+	defer func() {
+		if p := recover(); p != nil {
+			err = fmt.Errorf("%w: %v", errPanicked, p)
+		}
+	}()
+	return v.Verify(ni)
+}
+
+var errPanicked = errors.New("validator panicked")
+
 func verdict(err error) int {
 	if err == nil {
 		return 1
@@ -806,14 +831,14 @@ func TestC38Validators(t *testing.T) {
 				continue
 			}
 			uniq[name] = true
-			single[name] = w.validator(name).Verify(ni)
+			single[name] = safeVerify(w.validator(name), ni)
 		}
 		var vs []nmproc.NodeValidator
 		for _, name := range r.Config {
 			vs = append(vs, w.validator(name))
 		}
 		w.ext.set(r.ExtMode)
-		compErr := nodevalidation.New(vs...).Verify(ni)
+		compErr := safeVerify(nodevalidation.New(vs...), ni)
 
 		allAccept := true
 		firstReject := ""
